@@ -44,6 +44,11 @@ func (x *Exec) calleeContract(c *ssa.CallCommon) (*FuncContract, string, *ssa.Fu
 	// dynamic call: provenance
 	key := x.funcValueKey(c.Value)
 	if fc, ok := cs.Funcs[key]; ok {
+		if same := fc.Opts["same"]; same != "" {
+			if fc2, ok := cs.Funcs[same]; ok {
+				return fc2, same, nil
+			}
+		}
 		return fc, key, nil
 	}
 	return nil, key, nil
@@ -110,7 +115,13 @@ func (x *Exec) calleeAssigns(c *ssa.CallCommon) []assignItem {
 	}
 	var out []assignItem
 	for _, a := range fc.Assigns {
-		out = append(out, x.assignKey(a))
+		it := x.assignKey(a)
+		if it.key == "*" {
+			for _, pk := range splitList(fc.Opts["preserves"]) {
+				it.preserves = append(it.preserves, x.assignKey(pk).key)
+			}
+		}
+		out = append(out, it)
 	}
 	return out
 }
@@ -219,15 +230,21 @@ func (x *Exec) call(in ssa.Instruction, c *ssa.CallCommon, res ssa.Value) {
 	}
 	if fc != nil {
 		cenv := &Env{x: x, st: x.st, old: pre, binders: binders, bound: map[string]Val{}, closed: true, results: results, resNames: rnames}
+		_, optTrusted := fc.Opts["trusted"]
 		for _, cl := range fc.Ensures {
-			if !fc.Trusted && len(cl.Tags) == 0 {
+			if !fc.Trusted && !optTrusted && len(cl.Tags) == 0 {
 				continue // aux clauses are not visible to callers
+			}
+			if mentionsLocalGhost(cl.Expr, fc) {
+				continue // the callee's activation-local ghost state is not visible to callers
 			}
 			t := x.evalBool(cl.Expr, cenv, cl)
 			e.assume(x.guard, t)
 		}
 		if fc.Trusted {
 			e.assumptionsUsed["assumed contract: "+key] = true
+		} else if optTrusted {
+			e.assumptionsUsed["trusted in-repo helper ("+fc.Opts["trusted"]+"): "+key] = true
 		}
 	}
 	// caller-side post asserts and ghost updates
@@ -259,6 +276,37 @@ func (x *Exec) scalarArgsOnly(c *ssa.CallCommon) bool {
 		}
 	}
 	return true
+}
+
+func mentionsLocalGhost(ex SExpr, fc *FuncContract) bool {
+	found := false
+	var walk func(SExpr)
+	walk = func(n SExpr) {
+		switch n := n.(type) {
+		case *SSel:
+			if id, ok := n.X.(*SIdent); ok && id.Name == "ghost" {
+				if _, ok := fc.LocalGhost[n.F]; ok {
+					found = true
+				}
+				return
+			}
+			walk(n.X)
+		case *SUnary:
+			walk(n.X)
+		case *SBinary:
+			walk(n.L)
+			walk(n.R)
+		case *SIndex:
+			walk(n.X)
+			walk(n.I)
+		case *SCall:
+			for _, a := range n.Args {
+				walk(a)
+			}
+		}
+	}
+	walk(ex)
+	return found
 }
 
 func shortCallee(key string) string {
@@ -296,7 +344,15 @@ func (x *Exec) applyAssigns(fc *FuncContract, binders map[string]Val, pre *State
 	for _, a := range fc.Assigns {
 		it := x.assignKey(a)
 		if it.key == "*" {
+			keep := map[string]string{}
+			for _, pk := range splitList(fc.Opts["preserves"]) {
+				k := x.assignKey(pk).key
+				keep[k] = e.heapGet(pre, k)
+			}
 			x.havocAll()
+			for k, v := range keep {
+				x.st.H[k] = v
+			}
 			return
 		}
 		if it.key == "brk" {
@@ -676,11 +732,7 @@ func literalSliceLen(t string) int {
 func (x *Exec) special(callee *ssa.Function, c *ssa.CallCommon, args []Val, res ssa.Value, in ssa.Instruction) bool {
 	e := x.enc
 	full := callee.String()
-	declErr := func() {
-		e.decl("(declare-fun errIs (Iface Iface) Bool)")
-		e.decl("(assert (forall ((t Iface)) (! (not (errIs (mk-iface 0 0) t)) :pattern ((errIs (mk-iface 0 0) t)))))")
-		e.decl("(assert (forall ((a Iface)) (! (=> (not (= (itag a) 0)) (errIs a a)) :pattern ((errIs a a)))))")
-	}
+	declErr := func() {}
 	switch full {
 	case "fmt.Errorf", "errors.New":
 		declErr()
@@ -700,7 +752,6 @@ func (x *Exec) special(callee *ssa.Function, c *ssa.CallCommon, args []Val, res 
 				okf, vf := x.errAsFuncs(tn)
 				e.assume(x.guard, fmt.Sprintf("(and (= (%s %s) (%s %s)) (= (%s %s) (%s %s)))", okf, r.T, okf, wrapped, vf, r.T, vf, wrapped))
 			}
-			e.decl("(declare-fun errUnwrap (Iface) Iface)")
 			e.assume(x.guard, fmt.Sprintf("(= (errUnwrap %s) %s)", r.T, wrapped))
 		} else {
 			e.assume(x.guard, fmt.Sprintf("(forall ((t Iface)) (! (= (errIs %s t) (= %s t)) :pattern ((errIs %s t))))", r.T, r.T, r.T))
